@@ -29,6 +29,8 @@ def run(model, rep, tier):
     tsrules.record_units(rep, tsrules.exploration(ctx))
     r5_formatter_interface(ctx, rep)
     r6_summary_and_cleanup(ctx, rep)
+    from . import c02
+    c02.result_transfers(ctx, rep, 'C04.R6')
     r7_run_continues(ctx, rep)
     r8_optional_groups(ctx, rep)
     r10_absent_value_beliefs(ctx, rep)
